@@ -10,9 +10,9 @@ import json
 import os
 
 QUICK = [("pairs", "Gen_pairs.cfg", 1), ("ctxpairs", "Gen_ctxpairs.cfg", 2), ("triples", "Gen_triples.cfg", 1), ("seps", "Gen_seps.cfg", 2),
-         ("edges", "Gen_edges.cfg", 2), ("regexp", "Gen_regexp.cfg", 1)]
+         ("edges", "Gen_edges.cfg", 2), ("regexp", "Gen_regexp.cfg", 1), ("nest", "Gen_nest.cfg", 1)]
 THOROUGH = [("pairs", "Gen_pairs.cfg", 3), ("ctxpairs_t", "Gen_ctxpairs_t.cfg", 1), ("triples_t", "Gen_triples_t.cfg", 1),
-            ("seps_t", "Gen_seps_t.cfg", 2), ("edges", "Gen_edges.cfg", 4), ("regexp_t", "Gen_regexp_t.cfg", 1)]
+            ("seps_t", "Gen_seps_t.cfg", 2), ("edges", "Gen_edges.cfg", 4), ("regexp_t", "Gen_regexp_t.cfg", 1), ("nest_t", "Gen_nest_t.cfg", 1)]
 TRIVIA = ("Whitespace", "LineTerminator", "Comment", "CommentLineTerminator")
 
 
@@ -146,33 +146,20 @@ def judge(ck, fails, origin):
             ck.violation(s, "", {})
 
 
-def vocab_and_usage(path):
-    vocab, used = None, {}
-    for line in open(path):
-        c = json.loads(json.loads(line))
-        if "vocab" in c:
-            vocab = c["vocab"]
-            continue
-        for u in c["u"]:
-            for a in u:
-                used[a] = used.get(a, 0) + 1
-    return vocab, used
-
-
 def step(ck, plan, cfg, variants, used_all, **tlckw):
     cases = ck.path("cases-%s.ndjson" % plan)
     r = ck.tlc("js", "JsTokensGen", cfg, label="generator: " + plan, env={"VERIF_CASES": cases}, timeout=280, **tlckw)
     if not os.path.exists(cases):
         ck.fatal("generator %s wrote no cases" % plan)
-    vocab, used = vocab_and_usage(cases)
-    if not vocab:
-        ck.fatal("generator %s did not emit its vocabulary" % plan)
-    for a, n in used.items():
-        used_all[a] = used_all.get(a, 0) + n
     tp = ck.path("trace-%s.ndjson" % plan)
     s = ck.drive("jstok", "replay", "-cases", cases, "-out", tp, "-seed", ck.seed, "-variants", variants, "-mutevery", 25, timeout=600)
     if s["cases"] == 0:
         ck.fatal("generator %s produced no cases" % plan)
+    vocab = s.get("vocab")        # the vocabulary line TLC wrote, and how often each atom occurs in the cases
+    if not vocab:
+        ck.fatal("generator %s did not emit its vocabulary" % plan)
+    for a, n in (s.get("used") or {}).items():
+        used_all[a] = used_all.get(a, 0) + n
     if r.distinct and s["cases"] > r.distinct:
         ck.fatal("more cases than states in %s" % plan)
     ck.cov["evaluations"] += s["executions"] + s["free_executions"]
@@ -200,12 +187,12 @@ def run(ck):
     if thorough:
         step(ck, "seq", "Gen_seq.cfg", 2, used, simulate=3000, depth=40, seed=ck.seed, workers=8)
         ck.cov["exhaustive"] = "all plans but seq (simulation: 8 x 3000 behaviours of 12 units, cases at 4, 8, 12)"
-    ck.cov["constants"] = {"MaxNest": 3, "MaxBody": 3 if thorough else 2, "MaxLen (seq)": 12, "plans": [p for p, _, _ in (THOROUGH if thorough else QUICK)]}
+    ck.cov["constants"] = {"MaxNest": 3, "MaxBody": 3 if thorough else 2, "MaxLen (seq)": 12, "MaxLen (nest)": 6 if thorough else 5, "plans": [p for p, _, _ in (THOROUGH if thorough else QUICK)]}
     ck.cov["rule"] = ("a case is a sequence of units (atoms of JsTokens.tla, one token each) that TLC derived with a separator choice at every "
                       "boundary, allowed by NeedsSep/MergesStrict and the bracket context; spelled by seed (keyword and punctuator atoms have one "
                       "spelling); pairs: every two significant units x {none when safe, space, tab, LF, U+2028, comment}; ctxpairs: inside `${ }; "
                       "triples over a reduced set; seps/edges: every whitespace, line terminator and comment form between, before and after units; "
-                      "regexp: every body of up to MaxBody atoms after '/' and '/='; every 25th case also mutated (valid UTF-8 only) and judged by the "
+                      "regexp: every body of up to MaxBody atoms after '/' and '/='; nest: every sequence of template pieces, braces, parentheses, an identifier up to MaxLen; every 25th case also mutated (valid UTF-8 only) and judged by the "
                       "all-input invariants alone. non-trivial = distinct concretised case with at least two significant units.")
     ck.assumptions += ["Integer/Decimal/Hexadecimal/Octal/Binary are read as the obvious classes of NumericLiteral (see JsTokens.tla)",
                        "inside a template substitution ( ) { } are balanced; at top level they are free; goal symbol InputElementDiv elsewhere",
